@@ -40,6 +40,7 @@ def space(ctx):
 
 
 def shards(ctx):
+    import androguard.core.analysis.analysis  # noqa  (warm the import before the pool forks)
     return C.xm3_shards(ctx)
 
 
@@ -49,7 +50,11 @@ def _relevant(item):
 
 def _outcome(run, k):
     ma = run.ma(("LA;", "m%d" % k, "()V"))
-    return tuple(sorted((off, C.mtrip(m), bool(m.is_external())) for _, m, off in ma.get_xref_to())) if ma else None
+    if ma is None:
+        return None
+    cca = run.dx.get_class_analysis("LA;")
+    kinds = sorted((int(kd), off) for c in run.dx.get_classes() for kd, m, off in c.get_xref_from().get(cca, ()) if m is ma)
+    return (tuple(sorted((off, C.mtrip(m), bool(m.is_external())) for _, m, off in ma.get_xref_to())), tuple(kinds))
 
 
 def run_shard(ctx, shard):
@@ -71,5 +76,5 @@ def finalize(ctx, acc):
     missing += [k for k in need if not x.get(k)]
     if missing:
         acc.harness_error("vacuity: never exercised: %r" % missing)
-    if len(acc.outcomes) < (1000 if acc.n > 5000 else 50):
+    if len(acc.outcomes) < (1500 if acc.n > 5000 else 50):
         acc.harness_error("vacuity: only %d distinct callee relations observed over %d bodies" % (len(acc.outcomes), acc.n))
